@@ -13,6 +13,7 @@ use utils::*;
 
 mod c05;
 mod c06;
+mod c12;
 mod c17;
 mod canon;
 mod framework;
@@ -37,6 +38,7 @@ fn registry() -> Vec<Arc<dyn Check>> {
     }
     v.push(Arc::new(c06::C06));
     v.push(Arc::new(c17::C17));
+    v.push(Arc::new(c12::C12));
     v
 }
 
